@@ -58,7 +58,7 @@ def h_thumbprint(ctx):
     label, spec = ctx.choose("key", _KEYS)
     jwk = resolve(spec)
     kty = jwk["kty"]
-    origins = ["dict", "bytes"] if kty == "oct" else ["dict", "native", "pem", "der"]
+    origins = ["dict", "bytes"] if kty == "oct" else ["dict", "native", "pem", "der", "openssh public key line with a comment", "openssh private key"]
     how = ctx.choose("origin", origins)
     private = ctx.choose("private", [True] if kty == "oct" else [True, False])
     extras = ctx.choose("optional_members", [None, {"kid": "my-kid", "use": "sig", "alg": "X"}, {"key_ops": ["sign", "verify"], "x5t": "abc"}])
@@ -106,13 +106,23 @@ def h_thumbprint(ctx):
             return cls.import_key(b64.dec(jwk["k"]), params)
         from cryptography.hazmat.primitives import serialization as ser
         obj = rjwk.load(src, private=private)
+        if how.startswith("openssh"):
+            # what ssh-keygen writes: the public key as one line that ends in a comment, the private key in its own PEM armor
+            if how.endswith("comment"):
+                pk = obj.public_key() if private else obj
+                return cls.import_key(pk.public_bytes(ser.Encoding.OpenSSH, ser.PublicFormat.OpenSSH) + b" deploy@build-host", params)
+            return cls.import_key(obj.private_bytes(ser.Encoding.PEM, ser.PrivateFormat.OpenSSH, ser.NoEncryption()), params)
         if how == "native":
             return cls(obj, obj, params)
         enc = ser.Encoding.PEM if how == "pem" else ser.Encoding.DER
         raw = (obj.private_bytes(enc, ser.PrivateFormat.PKCS8, ser.NoEncryption()) if private
                else obj.public_bytes(enc, ser.PublicFormat.SubjectPublicKeyInfo))
         return cls.import_key(raw, params)
+    if how == "openssh private key" and not private:
+        return Outcome("n/a", [], nontrivial=None)
     k = call(build)
+    if not k.ok and how.startswith("openssh") and (jwk.get("crv") in ("secp256k1", "Ed448", "X25519", "X448")):
+        return Outcome("n/a:no-openssh-form-for-this-key-type", [], nontrivial=None)
     if not k.ok and order.startswith("given, x with the bit"):
         return Outcome("non-canonical-x-refused", [], nontrivial=(label, how, private, order))
     if not k.ok:
@@ -132,6 +142,11 @@ def h_thumbprint(ctx):
         tp = call(module_thumbprint, dict(src), given_as, digest)
     vs = []
     cls = f"{kty}{'-' + jwk['crv'] if 'crv' in jwk else ''}"
+    if not (extras and "kid" in extras):
+        # nobody gave this key a kid: it has none, or (once assigned) its thumbprint - never something taken from the representation it came in
+        kd = call(lambda: k.value.kid)
+        if kd.ok and kd.value is not None and tp.ok and kd.value != tp.value:
+            vs.append(viol(f"a key that was given no kid has a kid that is not its thumbprint: {cls} via {how}", f"{label} private={private}: kid {kd.value!r}, thumbprint {tp.value!r}"))
     if not tp.ok:
         vs.append(viol(f"thumbprint raises {tp.etype}", f"{label} via {how}"))
     elif tp.value != want:
